@@ -71,12 +71,40 @@ Definition external (r : prole) : bool :=
 (* ---- abstract Adj-RIB-In: (family, path id, prefix) -> attributes believed *)
 Definition rib := list (key * list attr).
 
-Fixpoint nlri_eqb (a b : nlri) : bool :=
-  let leq := fun x y : list N => if list_eq_dec N.eq_dec x y then true else false in
+Definition leqb (x y : list N) : bool := if list_eq_dec N.eq_dec x y then true else false.
+Definition fcomp_eqb (a b : fcomp) : bool :=
   match a, b with
-  | NV4 m x, NV4 m' x' | NV6 m x, NV6 m' x' => (m =? m') && leq x x'
-  | NLab4 l m x, NLab4 l' m' x' | NLab6 l m x, NLab6 l' m' x' => (m =? m') && leq x x'
-  | NVpn4 l r m x, NVpn4 l' r' m' x' | NVpn6 l r m x, NVpn6 l' r' m' x' => (m =? m') && leq x x' && leq r r'
+  | FPrefix t b0 o x, FPrefix t' b' o' x' => (t =? t') && (b0 =? b') && (o =? o') && leqb x x'
+  | FOps t ops, FOps t' ops' => (t =? t') && leqb (flat_map (fun p => [fst p; snd p]) ops) (flat_map (fun p => [fst p; snd p]) ops')
+  | _, _ => false
+  end.
+(* a flat rendering of a BGP-LS NLRI, used only to compare RIB keys *)
+Definition fo (o : option N) : list N := match o with Some x => [1; x] | None => [0] end.
+Definition fol (o : option (list N)) : list N := match o with Some l => 1 :: len l :: l | None => [0] end.
+Definition ls_flat_nd (n : lsnd) : list N :=
+  fo (nd_asn n) ++ fo (nd_lsid n) ++ fo (nd_area n) ++ fol (nd_igp n) ++ fol (nd_bgp n) ++ fo (nd_confed n).
+Definition ls_flat_tlv (t : lstlv) : list N :=
+  match t with
+  | LsLinkId l r => [0; l; r] | LsAddr k a => 1 :: k :: len a :: a | LsMt ids => 2 :: len ids :: ids
+  | LsOspf x => [4; x] | LsReach p a => 5 :: p :: len a :: a | LsUnk t v => 3 :: t :: len v :: v
+  end.
+Definition ls_flat (x : lsnlri) : list N :=
+  match x with
+  | LsUnknown t b => 0 :: t :: b
+  | LsNode p id n => 1 :: p :: id :: ls_flat_nd n
+  | LsLink p id l r tl => 2 :: p :: id :: ls_flat_nd l ++ ls_flat_nd r ++ flat_map ls_flat_tlv tl
+  | LsPrefix v6 p id n tl => (if v6 then 4 else 3) :: p :: id :: ls_flat_nd n ++ flat_map ls_flat_tlv tl
+  | LsSrv6 p id n sids mts => 6 :: p :: id :: ls_flat_nd n ++ N.of_nat (length sids) :: concat sids ++ mts
+  end.
+Definition nlri_eqb (a b : nlri) : bool :=
+  match a, b with
+  | NV4 m x, NV4 m' x' | NV6 m x, NV6 m' x' => (m =? m') && leqb x x'
+  | NLab4 l m x, NLab4 l' m' x' | NLab6 l m x, NLab6 l' m' x' => (m =? m') && leqb x x'
+  | NVpn4 l r m x, NVpn4 l' r' m' x' | NVpn6 l r m x, NVpn6 l' r' m' x' => (m =? m') && leqb x x' && leqb r r'
+  | NEvpn e, NEvpn e' | NRtc e, NRtc e' | NSrp e, NSrp e' | NMup e, NMup e' => leqb e e'
+  | NFlow k rd c, NFlow k' rd' c' =>
+    (k =? k') && leqb rd rd' && (Nat.eqb (length c) (length c')) && forallb (fun p => fcomp_eqb (fst p) (snd p)) (combine c c')
+  | NLs x, NLs y => leqb (ls_flat x) (ls_flat y)
   | NOther, NOther => true
   | _, _ => false
   end.
